@@ -12,7 +12,8 @@ import (
 )
 
 func init() {
-	props["C01"] = &prop{gen: genC01, run: runC01, concurrent: 8}
+	props["C01"] = &prop{gen: genC01, run: runC01, concurrent: 8,
+		exclusive: func(f []string) bool { return len(f) > 2 && f[2] == "mut" }}
 }
 
 const realChunkLimit = 16 * 1024 * 1024
